@@ -91,12 +91,16 @@ func (w *Worker) goString(v value) string {
 func (w *Worker) freshVar(name string, wd int) *Term {
 	k := w.nondetSeq[name]
 	w.nondetSeq[name] = k + 1
-	return w.tt.Var(fmt.Sprintf("%s#%d", name, k), wd)
+	full := fmt.Sprintf("%s#%d", name, k)
+	if fm := w.ex.opt.FixedModel; fm != nil {
+		return w.tt.Const(wd, fm[full])
+	}
+	return w.tt.Var(full, wd)
 }
 
 func nondetInt(wd int) interceptFn {
 	return func(w *Worker, fr *frame, fn *ssa.Function, args []value) value {
-		return w.freshVar(w.goString(args[0]), wd)
+		return lower(fn.Signature.Results().At(0).Type(), w.freshVar(w.goString(args[0]), wd))
 	}
 }
 
@@ -120,7 +124,7 @@ func init() {
 			n := int(w.concInt(args[1], "nondet-bytes-len"))
 			r := make([]value, n)
 			for i := range r {
-				r[i] = w.freshVar(name, 8)
+				r[i] = lower(types.Typ[types.Uint8], w.freshVar(name, 8))
 			}
 			return r
 		},
@@ -132,9 +136,9 @@ func init() {
 			}
 			r := make([]value, n)
 			for i := range r {
-				r[i] = w.freshVar(name, 8)
+				r[i] = lower(types.Typ[types.Uint8], w.freshVar(name, 8))
 			}
-			return &symStr{b: r}
+			return normStr(r)
 		},
 		"vNondetLenString": func(w *Worker, fr *frame, fn *ssa.Function, args []value) value {
 			name := w.goString(args[0])
@@ -142,7 +146,7 @@ func init() {
 			max := w.lift(args[1], 64)
 			w.assumeTerm(w.tt.And(w.tt.Cmp(OpSLe, w.tt.Const(64, 0), n), w.tt.Cmp(OpSLe, n, max)))
 			w.opqSeq++
-			return &opqStr{n: n, id: w.opqSeq}
+			return &opqStr{n: lower(types.Typ[types.Int], n), id: w.opqSeq}
 		},
 		"vNondetFloat64": func(w *Worker, fr *frame, fn *ssa.Function, args []value) value {
 			return floatSym{bits: w.freshVar(w.goString(args[0]), 64)}
@@ -155,8 +159,10 @@ func init() {
 			}
 			k := w.choose(n, "choice:"+name)
 			// record as a pseudo-variable so that native replay can read it
-			v := w.freshVar("choice:"+name, 64)
-			w.assertPCNoRecord(w.tt.Eq(v, w.tt.Const(64, uint64(k))))
+			if w.ex.opt.FixedModel == nil {
+				v := w.freshVar("choice:"+name, 64)
+				w.assertPCNoRecord(w.tt.Eq(v, w.tt.Const(64, uint64(k))))
+			}
 			return k
 		},
 		"vAssume": func(w *Worker, fr *frame, fn *ssa.Function, args []value) value {
@@ -182,6 +188,7 @@ func init() {
 		},
 		"vReach": func(w *Worker, fr *frame, fn *ssa.Function, args []value) value {
 			l := w.goString(args[0])
+			w.events = append(w.events, pathEvent{kind: "REACH", label: l})
 			for _, r := range w.reached {
 				if r == l {
 					return nil
@@ -191,7 +198,7 @@ func init() {
 			return nil
 		},
 		"vObserve": func(w *Worker, fr *frame, fn *ssa.Function, args []value) value {
-			w.observed = append(w.observed, ObsRec{Name: w.goString(args[0]), Val: obsString(args[1])})
+			w.events = append(w.events, pathEvent{kind: "OBS", label: w.goString(args[0]), val: args[1]})
 			return nil
 		},
 		"vParam": func(w *Worker, fr *frame, fn *ssa.Function, args []value) value {
@@ -297,7 +304,7 @@ func (w *Worker) assumeTerm(c *Term) {
 // assertCond checks a harness assertion on the current path.
 func (w *Worker) assertCond(cond value, label string, fr *frame) {
 	w.st.obligations++
-	w.asserts = append(w.asserts, assertRec{label: label, cond: cond})
+	w.events = append(w.events, pathEvent{kind: "ASSERT", label: label, val: cond})
 	switch c := cond.(type) {
 	case bool:
 		if c {
@@ -810,7 +817,7 @@ func init() {
 		p := ptrArg(args[0])
 		s := (*p).(structure)
 		w.logStore(&s[0])
-		s[0] = w.freshVar("memstats.Alloc", 64)
+		s[0] = lower(types.Typ[types.Uint64], w.freshVar("memstats.Alloc", 64))
 		return nil
 	}
 	S["runtime/debug.SetGCPercent"] = func(w *Worker, fr *frame, fn *ssa.Function, args []value) value { return 100 }
@@ -1125,6 +1132,9 @@ func (w *Worker) monoReading() value {
 		return int64(1)
 	}
 	v := w.freshVar("clock", 64)
+	if v.IsConst() {
+		return int64(v.C)
+	}
 	lo := w.tt.Const(64, 1<<20)
 	if w.lastClock != nil {
 		lo = w.lastClock
